@@ -529,8 +529,9 @@ def linear_renames(ctx):
     n = rng.randint(14, 22) if ctx.tier == "quick" else rng.randint(14, 40)
     # make sure a rename sits in the newest batch and an edit under the old name in an older one
     forced = {n - rng.randint(1, 7): ("rename", b"id-a"), rng.randint(2, max(2, n - 11)): ("edit", b"id-a")}
-    revs, touched, handover = [], {fid: set() for fid in tracked}, []
-    # disjoint name pools: a path never holds two different file ids (tree comparison follows paths, see files())
+    revs, touched = [], {fid: set() for fid in tracked}
+    # disjoint name pools: a path never holds two different file ids.  Tree comparison follows *paths*; a path handed from one
+    # file to another (even within one commit: a -> c, b -> a) makes it follow the other file - path/id ambiguity, not judged
     names = {b"id-a": ["a", "a2", "a c.txt", "x y"], b"id-b": ["b", "b2", "b.h", "zz"]}
     for i in range(1, n + 1):
         rid = b"lin-%d" % i
@@ -542,21 +543,6 @@ def linear_renames(ctx):
                     acts.append(("edit", fid))
                 elif k < 0.34:
                     acts.append(("rename", fid))
-            if i not in forced and rng.random() < 0.08 and i < n:
-                # one commit hands a path from one file to the other: a -> fresh name, b -> a's old path
-                pa, pb = tracked[b"id-a"], tracked[b"id-b"]
-                for _ in range(8):
-                    q = rng.choice(["", "d/", "e/"]) + rng.choice(names[b"id-a"])
-                    if q != pa and not os.path.lexists(os.path.join(base, q)):
-                        wt.rename_one(pa, q)
-                        wt.rename_one(pb, pa)
-                        tracked[b"id-a"], tracked[b"id-b"] = q, pa
-                        touched[b"id-a"].add(rid)
-                        touched[b"id-b"].add(rid)
-                        handover.append(rid)
-                        # from here on b lives in a's name pool and a keeps its own: pools stay disjoint per *path in use*
-                        break
-                acts = []
             for what, fid in acts:
                 p = tracked[fid]
                 if what == "edit":
@@ -580,11 +566,10 @@ def linear_renames(ctx):
         wt.commit("linear %d" % i, rev_id=rid, timestamp=1500000000 + i, timezone=0, committer="L <l@example.com>")
         revs.append(rid)
     ctx.hist("linear:revisions", n)
-    if handover:
-        ctx.count("linear_path_handover_history")
     b = wt.branch
     with b.lock_read():
         repo = b.repository
+        allv_recorded = set()
         for fid in sorted(tracked):
             path = tracked[fid]
             # versions from the recorded inventories (the workload's own bookkeeping must agree: plain data)
@@ -593,9 +578,11 @@ def linear_renames(ctx):
                 t = repo.revision_tree(r)
                 if t.get_file_revision(t.id2path(fid)) == r:
                     versions.add(r)
-            if versions != touched[fid]:
-                ctx.fail("linear:recorded-versions-differ-from-edits", "%r: versions %r, edited/renamed in %r" % (path, sorted(versions), sorted(touched[fid])))
+            # (the workload's own list of edits is only a superset: a rename there and back inside one commit is no version)
+            if not versions <= touched[fid]:
+                ctx.fail("linear:version-recorded-without-a-change", "%r: versions %r, edited/renamed in %r" % (path, sorted(versions), sorted(touched[fid])))
                 return
+            allv_recorded |= versions
             want = {"reverse": [r for r in revs[::-1] if r in versions], "forward": [r for r in revs if r in versions]}
             for deltas in (False, True):
                 which = "delta" if deltas else "graph"
@@ -614,9 +601,6 @@ def linear_renames(ctx):
                             missing = [r.decode() for r in want[direction] if r not in got]
                             extra = [r.decode() for r in got if r not in versions]
                             key = "linear:file:%s:%s:%s" % (which, direction, "loses-revisions-of-renamed-file" if missing and not extra else "wrong-revisions")
-                            if handover and deltas and extra:
-                                # a path passed from one file to the other within one revision and the listing follows the other file
-                                key = "linear:file:delta:path-handed-over-in-one-commit:follows-the-other-file"
                             ctx.fail(key, "%r (%s matching, %s, levels=%d, %d revisions): missing %r extra %r" % (path, which, direction, levels, n, missing, extra),
                                      {"format": fmt, "revisions": n, "path": path, "file_id": fid.decode(), "versions": sorted(v.decode() for v in versions),
                                       "got": [r.decode() for r in got]})
@@ -628,7 +612,7 @@ def linear_renames(ctx):
                                 ctx.fail("limit:applied-before-file-filter", "%r %s limit=%d: %r vs %r" % (path, which, k, lim, got[:k]))
         # two paths at once (always tree comparison)
         both = sorted(tracked.values())
-        allv = set().union(*touched.values())
+        allv = allv_recorded
         ctx.count("linear_file_log")
         try:
             got = [r for r, _n, _d in run_log(b, direction="reverse", levels=0, specific_files=both, _match_using_deltas=True)]
@@ -636,8 +620,7 @@ def linear_renames(ctx):
             ctx.fail("linear:file:delta:reverse:raises-%s" % type(e).__name__, "log of %r raised %r" % (both, e))
         else:
             if got != [r for r in revs[::-1] if r in allv]:
-                ctx.fail("linear:file:delta:path-handed-over-in-one-commit:follows-the-other-file" if handover and set(got) <= allv else
-                         "linear:file:delta:two-paths:wrong-revisions", "%r: %r, wanted %r" % (both, got, [r for r in revs[::-1] if r in allv]))
+                ctx.fail("linear:file:delta:two-paths:wrong-revisions", "%r: %r, wanted %r" % (both, got, [r for r in revs[::-1] if r in allv]))
 
 
 def case(ctx):
